@@ -171,6 +171,7 @@ func (fx *FnExec) specEnv(st *State, old *State, loop *loopInfo) *SpecEnv {
 			}
 		}
 	}
+	aliasRenamed(env.vars, fx.fn)
 	if loop != nil {
 		// inside the body (loop invariants, variants) a parameter name denotes the current value of the parameter
 		// variable, which the body may have assigned; in pre/postconditions it denotes the argument
@@ -178,6 +179,11 @@ func (fx *FnExec) specEnv(st *State, old *State, loop *loopInfo) *SpecEnv {
 			if env.localVarQuick(p.Name()) != nil && env.fx != nil {
 				if _, ok := st.locals[env.localVarQuick(p.Name())]; ok {
 					delete(env.vars, p.Name())
+					for old, cur := range renamesFor(fx.fn) {
+						if cur == p.Name() {
+							delete(env.vars, old)
+						}
+					}
 				}
 			}
 		}
@@ -325,6 +331,29 @@ func (env *SpecEnv) evalIdent(name string) *SV {
 				return mathSV(cur[0])
 			}
 		}
+		if env.loop != nil && env.loop.cntUp != nil {
+			// counting loop `for v := 0; v < n; v++`: at the loop head the body has completed for 0..v-1
+			return env.eval(env.loop.cntUp)
+		}
+		if env.loop == nil && env.fx != nil {
+			var only *loopInfo
+			n := 0
+			for _, li := range env.fx.loopList {
+				if li.cntUp != nil {
+					only = li
+					n++
+				}
+			}
+			if n == 1 {
+				n0 := len(env.e.specErrors)
+				le := *env
+				le.loop = only
+				if v := le.eval(only.cntUp); len(env.e.specErrors) == n0 {
+					return v
+				}
+				env.e.specErrors = env.e.specErrors[:n0]
+			}
+		}
 		env.errorf("$i used outside a slice-range loop")
 		return mathSV("0")
 	case "$alloc":
@@ -338,6 +367,17 @@ func (env *SpecEnv) evalIdent(name string) *SV {
 	if env.fx != nil {
 		if sv := env.localVar(name); sv != nil {
 			return sv
+		}
+	}
+	// a variable that the tree the contract was written against called `name` and the current tree renamed
+	if env.fx != nil {
+		if alt := env.fx.renamedLocal(name); alt != "" && alt != name {
+			if v, ok := env.vars[alt]; ok {
+				return v
+			}
+			if sv := env.localVar(alt); sv != nil {
+				return sv
+			}
 		}
 	}
 	// package-level constant or variable
@@ -1165,6 +1205,23 @@ func (env *SpecEnv) evalCall(x *SExpr) *SV {
 			}
 			env.errorf("$idx(n) needs the ordinal of a slice-range loop")
 			return mathSV("0")
+		case "$ranged":
+			// $ranged(n): the slice that the function's n-th loop ranges over (evaluated once, before the loop), so
+			// that an invariant need not name a temporary that holds it
+			if len(args) == 1 && args[0].Op == "num" && env.fx != nil {
+				for _, l := range env.fx.loopList {
+					if fmt.Sprint(l.ord) != args[0].Name || l.idxAlloc == nil {
+						continue
+					}
+					if x := rangedValue(l); x != nil {
+						if v, ok := env.state().regs[x]; ok && v != nil {
+							return &SV{V: v, T: x.Type()}
+						}
+					}
+				}
+			}
+			env.errorf("$ranged(n) needs the ordinal of a slice-range loop that has been reached")
+			return nil
 		case "selected":
 			k := "G|$selected|0"
 			e.regHeap(k, SInt, "selected", "G", nil)
@@ -1205,6 +1262,13 @@ func (env *SpecEnv) evalCall(x *SExpr) *SV {
 			return boolSV(sel(e.heapGet(env.state(), k), a.V.L[0]))
 		case "mine":
 			a := env.eval(args[0])
+			if a != nil && a.T != nil && len(a.V.L) == 3 {
+				if _, isSlice := a.T.Underlying().(*types.Slice); isSlice {
+					// a slice: its backing array is private to this activation (or there is none: a nil or empty
+					// literal has no capacity, so whatever is appended to it is newly allocated)
+					return boolSV(or(sel(e.heapGet(env.state(), e.keyMine()), a.V.L[0]), eq(a.V.L[0], "0")))
+				}
+			}
 			if a == nil || len(a.V.L) != 1 {
 				return boolSV("false")
 			}
